@@ -247,19 +247,32 @@ def tpm_check(C, counts_rows, tpm_path, norm, usable, output_zeroes, what):
     return [(k, {"table": what}, d) for k, d in fl]
 
 
-def run_one(ctx, d, seed, strategy, norm, tie=False, underscore=False, threads=1, tag="p", hash_id=False, dup=False):
-    """one pipeline run; returns list of (kind, input, detail)"""
+def run_one(ctx, d, seed, strategy, norm, tie=False, underscore=False, threads=1, tag="p", hash_id=False, dup=False,
+            gene_strategy=None, dataset=None, extra=()):
+    """one pipeline run; returns list of (kind, input, detail).
+    audit-2: `gene_strategy` (default: = `strategy`, the transcript strategy) - the two tables are judged by their OWN
+    strategy; `dataset` = None (c02_dataset) | "layout" (overlapping / antisense / nested genes, tails) | "zero:<case>"
+    (all-zero tables) | "deep" (read clusters > 1024 reads, cut at coverage valleys); `extra` = further options."""
     C = _c02()
+    gs = gene_strategy or strategy
     sub = os.path.join(d, "%s_%d_%s" % (tag, seed, strategy))
     os.makedirs(sub, exist_ok=True)
-    ds = G.c02_dataset(seed, tie=tie, underscore=underscore, hash_id=hash_id, dup=dup)
+    if dataset == "layout":
+        ds = G.c02_layout_dataset(seed)
+    elif dataset and dataset.startswith("zero:"):
+        ds = G.c02_zero_dataset(dataset[5:])
+    elif dataset == "deep":
+        ds = G.c02_deep_dataset(seed)
+    else:
+        ds = G.c02_dataset(seed, tie=tie, underscore=underscore, hash_id=hash_id, dup=dup)
     paths = ds.write(os.path.join(sub, "data"))
     base = {"mode": "pipeline", "ds_seed": seed, "strategy": strategy, "norm": norm, "tie": tie, "underscore": underscore,
-            "threads": threads, "hash_id": hash_id, "dup": dup}
+            "threads": threads, "hash_id": hash_id, "dup": dup, "gene_strategy": gene_strategy, "dataset": dataset,
+            "extra": list(extra)}
     rc, log = P.run_isoquant(os.path.join(sub, "out"),
                              P.std_args(paths, prefix="S", threads=threads,
-                                        extra=["--transcript_quantification", strategy, "--gene_quantification", strategy,
-                                               "--normalization_method", norm]))
+                                        extra=["--transcript_quantification", strategy, "--gene_quantification", gs,
+                                               "--normalization_method", norm] + list(extra)))
     if rc != 0:
         return [("pipeline_failed", base, log[-800:])]
     fs = P.out_files(os.path.join(sub, "out"), "S")
@@ -286,7 +299,10 @@ def run_one(ctx, d, seed, strategy, norm, tie=False, underscore=False, threads=1
     for lvl, cfile, tfile, complete in (("gene", "S.gene_counts.tsv", "S.gene_tpm.tsv", genes),
                                         ("transcript", "S.transcript_counts.tsv", "S.transcript_tpm.tsv", txs)):
         rows, stats = parse_table(fs[cfile])
-        fl, usable = check_reference_table(lvl, strategy, recs, multi, mono, rows, stats, n_unmapped, complete)
+        fl, usable = check_reference_table(lvl, gs if lvl == "gene" else strategy, recs, multi, mono, rows, stats, n_unmapped,
+                                           complete)
+        if dataset and dataset.startswith("zero:"):
+            ctx.count("pipeline_zero_total:%s:%s:rows=%d:nonzero=%d" % (dataset[5:], lvl, len(rows), sum(1 for _, v in rows if Decimal(v) != 0)))
         fails += fl
         fails += tpm_check(C, rows, fs[tfile], norm, usable, True, lvl)
         for r in recs:
@@ -307,7 +323,7 @@ def run_one(ctx, d, seed, strategy, norm, tie=False, underscore=False, threads=1
     return out
 
 
-def run_multisample(ctx, d, seed, n_exp=2):
+def run_multisample(ctx, d, seed, n_exp=2, yaml=False):
     """two or three experiments in one invocation: the combined_* tables (src/stats.py) must carry, per sample column,
     exactly the values of that sample's own tables, an empty cell exactly where the sample has no row, the experiment
     names as header, no statistics line of a counts file"""
@@ -323,13 +339,28 @@ def run_multisample(ctx, d, seed, n_exp=2):
             part = [r for i, r in enumerate(ds.reads) if i % (j + 1) == 0]
             paths.append(ds.write(os.path.join(sub, "data"), bam_name="%s.bam" % nm.lower(), reads=part, write_ref=False))
     p1 = paths[0]
-    lst = os.path.join(sub, "list.txt")
-    with open(lst, "w") as f:
-        f.write("".join("#%s\n%s\n" % (nm, p["bam"]) for nm, p in zip(names, paths)))
-    base = {"mode": "pipeline_multisample", "ds_seed": seed, "n_exp": n_exp}
+    base = {"mode": "pipeline_multisample", "ds_seed": seed, "n_exp": n_exp, "yaml": yaml}
     out = os.path.join(sub, "out")
-    rc, log = P.run_isoquant(out, ["--threads", "1", "--bam_list", lst, "--reference", p1["ref"], "--data_type", "nanopore",
-                                   "--no_gzip", "--genedb", p1["gtf"], "--complete_genedb"])
+    if yaml:
+        # audit-2: the experiments come from a YAML file and the FIRST experiment has TWO files (with labels: the grouped
+        # tables are switched on by IsoQuant itself); second file of S1 = every 5th read of the data set
+        p_extra = ds.write(os.path.join(sub, "data"), bam_name="s1b.bam", reads=[r for i, r in enumerate(ds.reads) if i % 5 == 0],
+                           write_ref=False)
+        y = os.path.join(sub, "data", "in.yaml")
+        with open(y, "w") as f:
+            f.write('[\n  data format: "bam",\n  {name: "S1", long read files: ["%s", "%s"], labels: ["rep1", "rep2"]},\n'
+                    % (os.path.basename(p1["bam"]), os.path.basename(p_extra["bam"])))
+            f.write("".join('  {name: "%s", long read files: ["%s"], labels: ["solo"]},\n' % (nm, os.path.basename(p_["bam"]))
+                            for nm, p_ in list(zip(names, paths))[1:]))
+            f.write("]\n")
+        rc, log = P.run_isoquant(out, ["--threads", "2", "--yaml", y, "--reference", p1["ref"], "--data_type", "nanopore",
+                                       "--no_gzip", "--genedb", p1["gtf"], "--complete_genedb", "-p", "PFX"])
+    else:
+        lst = os.path.join(sub, "list.txt")
+        with open(lst, "w") as f:
+            f.write("".join("#%s\n%s\n" % (nm, p["bam"]) for nm, p in zip(names, paths)))
+        rc, log = P.run_isoquant(out, ["--threads", "1", "--bam_list", lst, "--reference", p1["ref"], "--data_type", "nanopore",
+                                       "--no_gzip", "--genedb", p1["gtf"], "--complete_genedb"])
     if rc != 0:
         return [("pipeline_failed", base, log[-800:])]
     fails = []
@@ -363,6 +394,28 @@ def run_multisample(ctx, d, seed, n_exp=2):
             fails.append(("combined_table_differs", dict(base, table=what), "rows that are no feature of any experiment: %s"
                           % sorted(set(ids) ^ union)[:4]))
         ctx.count("pipeline_combined_rows", len(body))
+    if yaml:
+        # the two-file experiment: its grouped gene table (one column per file label) must sum to its ungrouped table
+        g = os.path.join(out, "S1", "S1.gene_grouped_counts.tsv")
+        if not os.path.exists(g):
+            fails.append(("combined_table_differs", dict(base, table="gene_grouped_counts"), "the two-file experiment has no grouped table"))
+        else:
+            ung = {f_: Decimal(v) for f_, v in parse_table(os.path.join(out, "S1", "S1.gene_counts.tsv"))[0]}
+            with open(g) as f:
+                for l in f:
+                    p_ = l.rstrip("\n").split("\t")
+                    if p_[0].startswith("#") and len(p_) > 1 and p_[0] == "#feature_id":
+                        if sorted(p_[1:]) != ["rep1", "rep2"]:
+                            fails.append(("combined_table_differs", dict(base, table="gene_grouped_counts"), "header %s" % p_))
+                        continue
+                    if p_[0].startswith("__"):
+                        continue
+                    tot = sum(Decimal(x) for x in p_[1:])
+                    if abs(tot - ung.get(p_[0], Decimal(-1))) > Decimal("0.011"):
+                        fails.append(("combined_table_differs", dict(base, table="gene_grouped_counts"),
+                                      "row %s sums to %s, ungrouped %s" % (p_[0], tot, ung.get(p_[0]))))
+                        break
+        ctx.count("pipeline_yaml_two_file_experiment")
     shutil.rmtree(sub, ignore_errors=True)
     return fails
 
@@ -394,14 +447,100 @@ def run(ctx, d, broken):
         for kind, inp, detail in run_multisample(ctx, d, seed, n_exp):
             ctx.fail(kind, inp, detail)
         n += 1
+    # ---- audit-2 (C02): option combinations / layouts / inputs outside the old generator
+    mixed = [("unique_only", "all"), ("all", "unique_only"), ("with_ambiguous", "unique_inconsistent"),
+             ("unique_splicing_consistent", "with_ambiguous"), ("unique_inconsistent", "unique_splicing_consistent"),
+             ("all", "with_ambiguous")]
+    opts = [[], ["--polya_requirement", "always"], ["--polya_requirement", "never", "--model_construction_strategy", "all",
+                                                     "--report_novel_unspliced", "true"],
+            ["--matching_strategy", "loose", "--stranded", "forward"], ["--high_memory"], ["--no_model_construction"]]
+    k0 = ctx.seed % len(mixed)
+    for j in range(1 if quick else len(mixed)):
+        gs, ts = mixed[(k0 + j) % len(mixed)]
+        # gene strategy != transcript strategy on the ordinary data set and on the overlapping / antisense / nested layout
+        for dataset in (None, "layout"):
+            ex = opts[(k0 + j + (1 if dataset else 0)) % len(opts)]
+            if "--no_model_construction" in ex:
+                ex = []          # run_one needs the model tables
+            for kind, inp, detail in run_one(ctx, d, seeds[j % len(seeds)] + j, ts, "simple" if j % 2 else "usable_reads",
+                                             gene_strategy=gs, dataset=dataset, extra=ex, threads=1 + j % 3, tag="mix%d" % j):
+                ctx.fail(kind, inp, detail)
+            ctx.count("pipeline_mixed_strategies:%s/%s:%s" % (gs, ts, dataset or "plain"))
+            n += 1
+    for j, case in enumerate(G.ZERO_CASES if not quick else [G.ZERO_CASES[ctx.seed % 4]]):
+        for kind, inp, detail in run_one(ctx, d, 1, G.STRATEGIES[(ctx.seed + j) % len(G.STRATEGIES)],
+                                         "simple" if j % 2 else "usable_reads", dataset="zero:" + case, tag="zero%d" % j):
+            ctx.fail(kind, inp, detail)
+        n += 1
+    for threads, mode in ([(3, [])] if quick else [(1, []), (3, []), (1, ["--high_memory"]), (3, ["--high_memory"])]):
+        for kind, inp, detail in run_not_aligned(ctx, d, threads, mode):
+            ctx.fail(kind, inp, detail)
+        n += 1
+    for kind, inp, detail in run_multisample(ctx, d, seeds[-1], 2, yaml=True):
+        ctx.fail(kind, inp, detail)
+    n += 1
+    for seed, mode in ([(seeds[0], [])] if quick else [(seeds[0], []), (seeds[1], ["--high_memory"])]):
+        for kind, inp, detail in run_one(ctx, d, seed, "with_ambiguous", "simple", dataset="deep", extra=mode, threads=2, tag="deep"):
+            ctx.fail(kind, inp, detail)
+        n += 1
     ctx.extra["oracle_pipeline_runs"] = n
+
+
+def run_not_aligned(ctx, d, threads, mode):
+    """`__not_aligned` with an experiment of THREE files: unplaced unmapped reads (flag 4, no position) in two of them and
+    PLACED unmapped reads (flag 4 + RNAME / POS: the SAM convention for the unmapped mate) in two of them; every count table
+    must say 5 + 3 = 8 (audit-2 probe C02/p4)"""
+    from gen import synth
+    sub = os.path.join(d, "na_%d_%s" % (threads, "hm" if mode else "lm"))
+    os.makedirs(sub, exist_ok=True)
+    t = [(2001, 2300), (2601, 3000), (3501, 3800)]
+
+    def mk(n_unm, n_placed, names):
+        ds = synth.Dataset(1)
+        ds.add_chrom("chr1", 20000)
+        ds.add_chrom("chr2", 9000)
+        ds.add_gene("chr1", "G1", "+", [("T1", t)])
+        ds.add_gene("chr2", "G2", "-", [("T2", t)])
+        for i, nm in enumerate(names):
+            ds.read_from_exons(nm, "chr1" if i % 2 else "chr2", t, flag=0 if i % 2 else 16)
+        for i in range(n_unm):
+            ds.add_read("%s_u%d" % (names[0], i), None, 0, None, flag=4, seq="ACGT" * 20)
+        for i in range(n_placed):
+            ds.add_raw_record("%s_p%d" % (names[0], i), "chr1", 2500 + i, None, flag=4, mapq=0)
+        return ds
+    parts = [mk(2, 1, ["a%d" % i for i in range(5)]), mk(3, 0, ["b%d" % i for i in range(4)]), mk(0, 2, ["c%d" % i for i in range(3)])]
+    paths = [ds.write(os.path.join(sub, "F%d" % i), write_ref=(i == 0)) for i, ds in enumerate(parts)]
+    args = P.std_args(paths[0], threads=threads, extra=list(mode))
+    k = args.index("--bam")
+    args = args[:k + 1] + [p_["bam"] for p_ in paths] + args[k + 2:]
+    base = {"mode": "pipeline_not_aligned", "threads": threads, "memory": list(mode)}
+    rc, log = P.run_isoquant(os.path.join(sub, "out"), args)
+    if rc != 0:
+        return [("pipeline_failed", base, log[-800:])]
+    of = P.out_files(os.path.join(sub, "out"))
+    fails = []
+    for fn in ("S.gene_counts.tsv", "S.transcript_counts.tsv", "S.transcript_model_counts.tsv"):
+        rows, stats = parse_table(of[fn])
+        if "__not_aligned" not in stats or Decimal(stats["__not_aligned"]) != 8:
+            fails.append(("stats_line_differs", dict(base, table=fn), "__not_aligned = %s, expected 8 (5 unplaced + 3 placed unmapped "
+                          "records in 3 files)" % stats.get("__not_aligned")))
+        assigned = sum(Decimal(v) for _, v in rows)
+        if fn != "S.transcript_model_counts.tsv" and assigned != 12:
+            fails.append(("table_not_sum", dict(base, table=fn), "12 uniquely assigned reads in 3 files, table total %s" % assigned))
+    ctx.count("pipeline_not_aligned_3_files")
+    shutil.rmtree(sub, ignore_errors=True)
+    return fails
 
 
 def replay(ctx, failure, d):
     inp = failure["input"]
     if inp.get("mode") == "pipeline_multisample":
-        return any(k == failure["kind"] for k, _, _ in run_multisample(ctx, d, inp["ds_seed"], inp.get("n_exp", 2)))
+        return any(k == failure["kind"] for k, _, _ in run_multisample(ctx, d, inp["ds_seed"], inp.get("n_exp", 2),
+                                                                       yaml=inp.get("yaml", False)))
+    if inp.get("mode") == "pipeline_not_aligned":
+        return any(k == failure["kind"] for k, _, _ in run_not_aligned(ctx, d, inp.get("threads", 1), inp.get("memory", [])))
     fl = run_one(ctx, d, inp["ds_seed"], inp["strategy"], inp["norm"], tie=inp.get("tie", False),
                  underscore=inp.get("underscore", False), threads=inp.get("threads", 1), tag="replay",
-                 hash_id=inp.get("hash_id", False), dup=inp.get("dup", False))
+                 hash_id=inp.get("hash_id", False), dup=inp.get("dup", False), gene_strategy=inp.get("gene_strategy"),
+                 dataset=inp.get("dataset"), extra=inp.get("extra") or ())
     return any(k == failure["kind"] for k, _, _ in fl)
